@@ -41,10 +41,13 @@ theorem connAlloc_ok {s : St} (h : Core s) (hnb : NB s) (p : Entry × St)
   have hi' := hu.inv h.inv hpa (fun _ => by rw [hpha]; simp) (by rw [hcla, holdp.2.1])
   have hnc : (p.2.cb .accept (s.nconn + 1) p.1.ret).nconn = s.nconn + 1 := by
     rw [nconn_cb, ← hp, nconn_pop]; rfl
-  refine ⟨⟨hi', fun i hi => ?_, by rw [hu.list]; exact h.nodup, fun x hx => ?_⟩, fun i => ?_, ?_, ?_, hu.list, hnc⟩
+  refine ⟨⟨hi', fun i hi => ?_, by rw [hu.list]; exact h.nodup, fun x hx => ?_, fun x hx => ?_⟩, fun i => ?_, ?_, ?_, hu.list, hnc⟩
   · rw [hnc] at hi
     rw [hu.other i (by omega)]; exact h.fresh i (by omega)
   · rw [hnc]; rw [hu.list] at hx; have := h.bound x hx; omega
+  · rw [hu.list] at hx
+    have := h.bound x hx
+    rw [hu.other x (by omega)]; exact h.lnn x hx
   · by_cases hc : i = s.nconn + 1
     · subst hc; rw [hu.at_c]; exact hba
     · rw [hu.other i hc]; exact hnb i
@@ -81,7 +84,7 @@ theorem connRej_ok {s : St} (h : Core s) (c : Nat) (hh : s.halt = false) (hnb : 
   have hu := updOf_upd s c fun k => { k with phase := .rejected, rc := k.rc - 1, init := false }
   have hi' := hu.inv h.inv hp (fun _ => by simp) (by simp)
   have hn : (s.conns c).phase ≠ .none := by rw [hph]; simp
-  have hc1 : Core (connRejPre s c) := by rw [he]; exact h.updOf hu rfl hi' hn
+  have hc1 : Core (connRejPre s c) := by rw [he]; exact h.updOf hu rfl hi' hn (by simp)
   have hnb1 : NB (connRejPre s c) := by
     rw [he]; intro i
     by_cases hc : i = c
@@ -110,7 +113,7 @@ theorem connAct_ok {s : St} (h : Core s) (c : Nat) (hnb : NB s)
         created := true }) (connActPre s c) :=
     ⟨by simp [connActPre, cb_eq], fun i hi => by simp [connActPre, cb_eq, hi], rfl, rfl, rfl, rfl, rfl⟩
   have hi' := hu.inv hi0 hp (fun _ => by rw [h1]; simp) (by rw [h2])
-  refine ⟨⟨hi', fun i hi => ?_, ?_, fun x hx => ?_⟩, fun i => ?_, rfl⟩
+  refine ⟨⟨hi', fun i hi => ?_, ?_, fun x hx => ?_, fun x hx => ?_⟩, fun i => ?_, rfl⟩
   · have hi2 : s.nconn < i := hi
     rw [hu.other i (by omega)]; exact h.fresh i hi2
   · show (c :: s.list).Nodup
@@ -120,6 +123,13 @@ theorem connAct_ok {s : St} (h : Core s) (c : Nat) (hnb : NB s)
     rcases List.mem_cons.mp hx' with hx' | hx'
     · subst hx'; exact hle
     · exact h.bound x hx'
+  · have hx' : x ∈ c :: s.list := hx
+    by_cases hc : x = c
+    · subst hc; rw [hu.at_c, h1]; simp
+    · rw [hu.other x hc]
+      rcases List.mem_cons.mp hx' with hx' | hx'
+      · exact absurd hx' hc
+      · exact h.lnn x hx'
   · by_cases hc : i = c
     · subst hc; rw [hu.at_c, if_pos rfl]
       exact Prod.ext h3 (Prod.ext (h4.trans hbc.2.1) (h5.trans hbc.2.2))
@@ -141,7 +151,7 @@ theorem connEst_ok {s : St} (h : Core s) (c : Nat) (hh : s.halt = false) (hb : B
       { (if k.st = .active then { k with st := .established } else k) with
         rc := (if k.st = .active then { k with st := .established } else k).rc - 1, brCreated := false }
   have hi' := hu.inv h.inv hp (fun hx => by rw [h1]; exact h.inv.lst c hx) (by rw [h2])
-  have hc1 : Core (connEstPre s c) := by rw [he]; exact h.updOf hu rfl hi' hn
+  have hc1 : Core (connEstPre s c) := by rw [he]; exact h.updOf hu rfl hi' hn (by rw [h1]; exact hn)
   have hnb1 : NB (connEstPre s c) := by
     rw [he]; intro i
     by_cases hc : i = c
